@@ -46,4 +46,9 @@ def tr (I : Interp) (t : Tm) : Prop := ev I t ≠ 0
 /-- a sequent holds: the hypotheses imply the proposition -/
 def Seq.holds (I : Interp) (s : Seq) : Prop := (∀ h ∈ s.hyps, tr I h) → tr I s.prop
 
+/-- what the arithmetic shape rules need of the relation interpreting `less_eq` -/
+structure Interp.LeOrder (I : Interp) : Prop where
+  refl : ∀ x, I.le x x = true
+  antisymm : ∀ x y, I.le x y = true → I.le y x = true → x = y
+
 end Holpy.C18
